@@ -215,3 +215,33 @@ def evalf(e, env, funcs=None):
     if o == 'true':
         return True
     raise ValueError(o)
+
+
+def diff(e, name):
+    """formal derivative with respect to the leaf called `name` (polynomial / rational trees only)"""
+    o = e.op
+    if o == 'const':
+        return const(0)
+    if o == 'var':
+        return const(1) if e.val[0] == name else const(0)
+    if o == 'neg':
+        return -diff(e.args[0], name)
+    a, b = (e.args + (None, None))[:2]
+    if o == '+':
+        return diff(a, name) + diff(b, name)
+    if o == '-':
+        return diff(a, name) - diff(b, name)
+    if o == '*':
+        return diff(a, name) * b + a * diff(b, name)
+    if o == '/':
+        return (diff(a, name) * b - a * diff(b, name)) / (b * b)
+    raise ValueError('diff: ' + o)
+
+
+def subst(e, name, by):
+    """replace the leaf called `name` by tree `by`"""
+    if e.op == 'var':
+        return by if e.val[0] == name else e
+    if not e.args:
+        return e
+    return E(e.op, tuple(subst(a, name, by) for a in e.args), e.val)
